@@ -530,4 +530,39 @@ theorem roundtrip_late_core (rank : Nat → Nat) (hno : NoOwn h)
 
 end
 
+/-! ### Boolean hypotheses as propositions -/
+
+theorem noCb_phases (h : Heap) (hb : noCb h = true) : ∀ ob ∈ h, ∀ f ∈ ob.fields, f.phase = .early ∨ f.phase = .late := by
+  intro ob hob f hf
+  unfold noCb at hb
+  have := (List.all_eq_true.mp hb) ob hob
+  have := (List.all_eq_true.mp this) f hf
+  cases hp : f.phase with
+  | early => exact Or.inl rfl
+  | late => exact Or.inr rfl
+  | cb => rw [hp] at this; cases this
+
+theorem lateCyclesBy_iff (rank : Nat → Nat) (h : Heap) (hb : lateCyclesBy rank h = true) :
+    (∀ o ob, h[o]? = some ob → ∀ f ∈ ob.fields, f.phase = .early → ∀ p, f.val = .ref p → rank p < rank o) ∧
+    (∀ o ob, h[o]? = some ob → ∀ f ∈ ob.fields, ∀ p, f.val = .ref p → rank p ≤ rank o) := by
+  have key : ∀ (o : Nat) (ob : Obj), h[o]? = some ob → ∀ (f : Field), f ∈ ob.fields → ∀ (p : Nat), f.val = Val.ref p →
+      (match f.phase with | Phase.early => decide (rank p < rank o) | _ => decide (rank p ≤ rank o)) = true := by
+    intro o ob hob f hf p hp
+    unfold lateCyclesBy at hb
+    have ho : o < h.length := by
+      obtain ⟨ho, _⟩ := List.getElem?_eq_some_iff.mp hob; exact ho
+    have := (List.all_eq_true.mp hb) o (List.mem_range.mpr ho)
+    simp only [hob] at this
+    have := (List.all_eq_true.mp this) f hf
+    simp only [hp, Val.target] at this
+    cases hph : f.phase <;> simp only [hph] at this ⊢ <;> exact this
+  constructor
+  · intro o ob hob f hf hph p hp
+    have := key o ob hob f hf p hp
+    simp only [hph, decide_eq_true_eq] at this
+    exact this
+  · intro o ob hob f hf p hp
+    have := key o ob hob f hf p hp
+    cases hph : f.phase <;> simp only [hph, decide_eq_true_eq] at this <;> omega
+
 end GlueVerif.C02
